@@ -9,6 +9,7 @@
 From Coq Require Import List NArith Bool.
 From Coq.Strings Require Import Byte.
 From Connect Require Import Bytes Generated Codes Base64 Header ErrWire.
+From Connect Require Plumbing.
 Import ListNotations.
 Local Open Scope N_scope.
 
@@ -65,3 +66,19 @@ Theorem bin_accepts_padded : forall s : bytes,
   decode_binary_header (pad_to_4 (encode_binary_header s)) = Some s.
 Proof. exact bin_accepts_padded_lemma. Qed.
 Print Assumptions bin_accepts_padded.
+
+(* "with values unchanged": a receiver that calls Receive again after the stream
+   has ended — it keeps reporting the end — finds, however often it does so, the
+   trailers the stream carried, each value once and in order (repaired in /repo,
+   7ba149d: before, every failing Receive merged them again). *)
+Theorem trailers_stable_under_repeated_receive : forall n carried k,
+  values k (fst (failing_receives (S n) carried ([], false))) = values k carried.
+Proof. exact trailer_values_stable_lemma. Qed.
+Print Assumptions trailers_stable_under_repeated_receive.
+
+(* request_headers_visible is stated over the merge of the headers already on the
+   conn (protocol headers, what interceptors attached) with the caller's: a
+   server-streaming call does merge them *)
+Theorem server_stream_request_headers_are_merged : server_stream_merges_request_headers = true.
+Proof. exact Plumbing.server_stream_headers_are_merged. Qed.
+Print Assumptions server_stream_request_headers_are_merged.
